@@ -150,7 +150,7 @@ def hyp_case(draw, max_len):
         return {"kind": "user", "seq": seq, "user": user, "valid": False, "why": "missing-key", "warm": warm}
     if how == "bad-value":
         k = draw(st.sampled_from(list(ref.AA)))
-        user[k] = draw(st.sampled_from(["a", "k", "AK", "1", "", "X", "B", "*", " "]))
+        user[k] = draw(st.sampled_from(["a", "k", "AK", "1", "", "X", "B", "*", " ", "DE", "ST", "IL", "KDE", "AI", None, 7]))
         return {"kind": "user", "seq": seq, "user": user, "valid": False, "why": "bad-value", "warm": warm}
     nd = draw(st.sampled_from([list(ref.AA), "ACDEFGHIKLMNPQRSTVWY", [["A", "A"]], ["A"]]))
     return {"kind": "user", "seq": seq, "user": nd, "valid": False, "why": "non-dict"}
